@@ -34,7 +34,7 @@ BUDGETS = {'C17': (45, 900, 100)}
 LEVELS = {'C17': 'exploration'}
 PROBES = {'C17': ['encoded_crlf_in_path', 'encoded_crlf_in_login', 'encoded_nul', 'multiline_reply', 'inner_line_with_digits',
                   'reply_split_across_reads', 'ok226_before_data_eof', 'data_eof_before_226', 'data_reset', 'no_completion_reply',
-                  'negative_completion', 'error_reply_step', 'listing', 'control_reuse', 'download_ok', 'metamorphic', 'big_file', 'slow_transfer', 'data_stall']}
+                  'negative_completion', 'error_reply_step', 'listing', 'control_reuse', 'download_ok', 'metamorphic', 'big_file', 'slow_transfer', 'data_stall', 'control_cut_inside_reply']}
 INFO = {'C17': {
     'rule': 'workload = 1..3 FTP fetches (file or listing) on one control connection: URL path/user/password with drawn bytes '
             '(any byte value percent-encoded, incl. CR LF NUL), reply texts and multi-line shapes per step, error replies, '
@@ -199,6 +199,17 @@ class _Control:
             h.r.probes['multiline_reply'] += 1
         if digits:
             h.r.probes['inner_line_with_digits'] += 1
+        if h.plan.get(('cut', step)) and not getattr(h, 'cut_fired', False):
+            # the control connection is lost inside the last line of this reply (after 'ddd ' at least, before its LF)
+            h.cut_fired = True
+            last = data.rstrip(b'\r\n').rfind(b'\n') + 1
+            lo, hi = last + 4, len(data.rstrip(b'\r\n'))
+            k = lo + h.stape.draw(max(1, hi - lo + 1), 'cut.at')
+            h.r.probes['control_cut_inside_reply'] += 1
+            h.r.faults['ftp_control_cut.' + step] += 1
+            self.say(data[:k])
+            self.conn.finish()
+            return None
         self.say(data)
         return code
 
@@ -238,7 +249,8 @@ class _Control:
             self.reply(v, 200, 'type set')
         elif v == 'PASV':
             port = self.srv.next_port
-            self.srv.next_port += 1
+            if not h.plan.get('pasv_reuse'):
+                self.srv.next_port += 1         # (with pasv_reuse every 227 names the same port, as small servers do)
             self.data_conn = None
             self.srv.net.listen(self.srv.ip, port, lambda c: _Data(self, c))
             a = self.srv.ip.split('.')
@@ -289,10 +301,10 @@ class _Control:
                 dc.send(content)
                 dc.finish()
                 self.conn.wait(h.stape.choice((0.0, 0.05, 1.0), 'transfer.gap'))
-                self.reply(v + '.end', 226, 'transfer complete')
+                done = self.reply(v + '.end', 226, 'transfer complete')
                 h.r.probes['data_eof_before_226'] += 1
             elif order == 1:        # 226 first, data later
-                self.reply(v + '.end', 226, 'transfer complete')
+                done = self.reply(v + '.end', 226, 'transfer complete')
                 dc.wait(h.stape.choice((0.05, 1.0, 3.0), 'transfer.gap'))
                 dc.send(content)
                 dc.finish()
@@ -300,8 +312,10 @@ class _Control:
             else:                   # simultaneous
                 dc.send(content, delay=0.0)
                 dc.finish()
-                self.reply(v + '.end', 226, 'transfer complete')
-            info.update(sent_all=True, eof=True, ok226=True)
+                done = self.reply(v + '.end', 226, 'transfer complete')
+            info.update(sent_all=True, eof=True, ok226=done == 226)
+            if done is None:
+                info['mode'] = 'completion_reply_cut'
         elif mode == 'slow':
             # a healthy but slow transfer: no single gap reaches the read timeout, the whole transfer exceeds it (the control
             # connection sits idle meanwhile)
@@ -382,10 +396,13 @@ def gen_script(tape, faults_on):
     plan['user_230'] = tape.chance(1, 6, 'user230')
     plan['mlsd'] = not tape.chance(1, 3, 'nomlsd')
     plan['shape_seed'] = tape.draw(1 << 20, 'shape_seed')
+    plan['pasv_reuse'] = tape.chance(1, 4, 'pasv_reuse')
     if faults_on:
         for _ in range(tape.between(1, 2, 'nfaults')):
-            k = tape.draw(7, 'fault.kind')
-            if k == 6:
+            k = tape.draw(8, 'fault.kind')
+            if k == 7:
+                plan[('cut', tape.choice(('RETR.end', 'RETR.end', 'LIST.end', 'MLSD.end', 'SIZE', 'PASV', 'PASS', 'TYPE', 'RETR.begin'), 'fault.cut.step'))] = True
+            elif k == 6:
                 plan[('transfer', tape.draw(n, 'fault.transfer'))] = 'ok226_then_stall'
             elif k == 0:
                 verb = tape.choice(('USER', 'PASS', 'TYPE', 'PASV', 'SIZE', 'RETR', 'LIST'), 'fault.verb')
